@@ -1,5 +1,6 @@
 (** C03 - correspondence (model = implementation) and property oracle, evaluated on the
-    implementation's outputs with the binary64 / binary32 instances and exact rationals. *)
+    implementation's outputs with the binary64 / binary32 instances and exact rationals.
+    The array-level models of C03/MatModel.v are run in C03/CorrMat.v (constructor [CMAT]). *)
 From Coq Require Import List NArith ZArith Bool Floats SpecFloat QArith.
 From LinfaVerif Require Export Common.Num Common.NdSum Common.Run Common.B32 Common.QF C03.Model.
 From LinfaVerif Require Import C03.Sigmoid.
